@@ -1169,7 +1169,7 @@ def parts(tier):
             "histories",
             run,
             strategy=histories(4 if tier == "quick" else 6, 12),
-            n={"quick": 1600, "thorough": 16000},
+            n={"quick": 1600, "thorough": 80000},
             require={"quick": quick, "thorough": {k: 5 * v for k, v in quick.items()}},
             shards={"quick": 16, "thorough": 16},
             case_timeout_s=60.0,
